@@ -49,6 +49,7 @@ type genInfo struct {
 	interleave bool // a registration action after the first feed
 	unregistered int
 	opts         genOpts
+	endStamped   bool
 	repeats      int // repeated notifications issued
 	repeatConc   int // of which concurrent with the first one
 }
@@ -125,6 +126,17 @@ func genWorld(t *rapid.T, w *world, o genOpts) *genInfo {
 				}
 				cur = mt + uint64(rapid.IntRange(1, 4).Draw(t, "gap"))<<18
 				p.end = cur
+				if (o.repeatNotify || o.sameName) && p.begin == 0 && nm > 0 && rapid.IntRange(0, 2).Draw(t, "allStampedAtPackEnd") == 0 {
+					// a first pack after a subscription (BeginTs = 0) whose messages all carry the pack's end time (e.g. an upsert
+					// stamped with the closing tick). Only in the tests with their own draw sequence (TestC01_Repeat, TestC02_SameName).
+					for _, m := range p.msgs {
+						m.ts = mt
+					}
+					p.end = mt
+					cur = mt + 1<<18
+					gi.equalTs = gi.equalTs || nm > 1
+					gi.endStamped = true
+				}
 				st.script = append(st.script, p)
 			}
 		}
@@ -471,7 +483,7 @@ func checkC01C02(t failer, w *world, prop string) *oracleStats {
 						continue
 					}
 					for _, m := range p.msgs {
-						if !supported(m.kind) {
+						if !supported(m.kind) || m.optional {
 							continue
 						}
 						if m.emitted == 0 && !errStreams {
@@ -656,6 +668,7 @@ func propC01C02Opts(t *rapid.T, prop string, repeatNotify, sameName bool) {
 	sc.ClassIf(gi.absentColl, "collection-created-by-event")
 	sc.ClassIf(gi.interleave, "registration-after-first-feed")
 	sc.ClassIf(sameName, "same-named-collections-in-different-databases")
+	sc.ClassIf(gi.endStamped, "beginTs=0-pack-with-all-messages-at-the-pack-end-time")
 	sc.ClassIf(gi.repeats > 0, "repeated-notification")
 	sc.ClassIf(gi.repeatConc > 0, "repeated-notification-concurrent")
 	sc.ClassIf(gi.unregistered > 0, "stream-waiting-for-free-channel(not fed)")
@@ -813,6 +826,131 @@ func TestC16_Manager(t *testing.T) {
 		sc.NonTrivial(gi.unregistered > 0 && len(bound) >= 1)
 		sc.Fingerprint(map[string]any{"catalog": w.describe(), "actions": w.hist})
 		sc.Sample(map[string]any{"catalog": w.describe(), "assignment": bound})
+		sc.Done()
+	})
+}
+
+// TestC01_Drop: the stream of a multi-shard collection contains a drop-partition message (one upstream DDL: same time on every
+// shard) and the shards are read with a drawn skew. Inserts and deletes addressed to the partition occur only BEFORE the drop
+// message of their own shard, so none of them is addressed to a partition that is already dropped on both sides - the downstream
+// drop is requested only after every shard delivered the drop message. Every one of them must be handed over, also those of a
+// lagging shard that are read after another shard has already passed the drop. (The per-shard drop messages themselves may be
+// filtered.) Same two-sided oracle as TestC01.
+func TestC01_Drop(t *testing.T) {
+	rapid.Check(t, func(t *rapid.T) {
+		sc := stats.New("C01")
+		w := newWorld(worldOpts{ttIntervalMs: rapid.SampledFrom([]int{1, 10000000}).Draw(t, "ttInterval"), bufSize: rapid.SampledFrom([]int{1, 4}).Draw(t, "bufSize")})
+		defer w.close()
+		ns := rapid.IntRange(2, 3).Draw(t, "shards")
+		idx := drawSubset(t, 3, ns, "placement")
+		parts := []*partDef{{name: "_default"}, {name: "p1"}}
+		c := w.addCollection(0, rapid.SampledFrom([]string{"default", "db1"}).Draw(t, "db"), idx, idx, parts, false)
+		if err := w.start(c); err != nil {
+			t.Fatalf("VERIF-TROUBLE start: %v", err)
+		}
+		for _, st := range c.streams {
+			st.posKd = rapid.SampledFrom([]string{"nil", "pchannel"}).Draw(t, "positionKind")
+			if !w.waitRegistered(st, 20*time.Second) {
+				t.Fatalf("VERIF-TROUBLE stream %s not registered", st.srcV)
+			}
+		}
+		if b, ok := w.quiesce(20 * time.Second); !ok {
+			t.Fatalf("VERIF-TROUBLE quiesce: %s", b)
+		}
+		if err := w.mgr.AddPartition(w.taskCtx(), (&modelDB{c.db}).info(), c.info, partInfo(c, parts[1])); err != nil {
+			t.Fatalf("VERIF-TROUBLE AddPartition: %v", err)
+		}
+		parts[1].registered = true
+		dropTs := ts(1700000009000, 0)
+		tag := int64(0)
+		dropPack := map[*streamDef]*packDef{}
+		for _, st := range c.streams {
+			cur := ts(1700000000000+uint64(rapid.SampledFrom([]int{0, 3, 1000}).Draw(t, "clockSkewMs")), 0)
+			pi := 0
+			mk := func(kinds []string, at *uint64, part func() *partDef) *packDef {
+				p := &packDef{stream: st, idx: pi, id: []byte(fmt.Sprintf("c0s%dp%d", st.shard, pi)), begin: *at}
+				mt := *at
+				for _, k := range kinds {
+					mt += uint64(rapid.IntRange(1, 3).Draw(t, "dts"))
+					tag++
+					m := &msgDef{kind: k, ts: mt, tag: tag, rows: 1, pack: p}
+					if k == "insert" || k == "delete" {
+						m.part = part()
+					}
+					p.msgs = append(p.msgs, m)
+				}
+				*at = mt + uint64(rapid.IntRange(1, 3).Draw(t, "gap"))<<18
+				p.end = *at
+				pi++
+				return p
+			}
+			anyPart := func() *partDef { return parts[rapid.IntRange(0, 1).Draw(t, "part")] }
+			for k := rapid.IntRange(0, 3).Draw(t, "packsBeforeDrop"); k > 0; k-- {
+				var kinds []string
+				for n := rapid.IntRange(1, 2).Draw(t, "msgs"); n > 0; n-- {
+					kinds = append(kinds, rapid.SampledFrom([]string{"insert", "delete", "delete"}).Draw(t, "kind"))
+				}
+				st.script = append(st.script, mk(kinds, &cur, anyPart))
+			}
+			at := dropTs - 1
+			dp := mk([]string{"dropPartition"}, &at, nil)
+			dp.msgs[0].ts = dropTs
+			dp.msgs[0].part = parts[1]
+			dp.msgs[0].optional = true
+			dp.end = dropTs + 1<<18
+			dropPack[st] = dp
+			st.script = append(st.script, dp)
+			cur = dp.end
+			for k := rapid.IntRange(0, 2).Draw(t, "packsAfterDrop"); k > 0; k-- {
+				st.script = append(st.script, mk([]string{rapid.SampledFrom([]string{"insert", "delete"}).Draw(t, "kindAfter")}, &cur, func() *partDef { return parts[0] }))
+			}
+		}
+		behindADrop := 0 // messages of the partition read on one shard after another shard had passed the drop
+		for step := 0; step < 100; step++ {
+			var feedable []*streamDef
+			for _, st := range c.streams {
+				if st.next < len(st.script) {
+					feedable = append(feedable, st)
+				}
+			}
+			if len(feedable) == 0 {
+				break
+			}
+			st := feedable[rapid.IntRange(0, len(feedable)-1).Draw(t, "feed")]
+			p := st.script[st.next]
+			otherPassed := false
+			for _, o := range c.streams {
+				if o != st && dropPack[o].fedSeq != 0 {
+					otherPassed = true
+				}
+			}
+			if w.feedNext(st) {
+				w.hist = append(w.hist, fmt.Sprintf("feed(%s#%d)", st.srcV, st.next-1))
+				for _, m := range p.msgs {
+					if otherPassed && m.part == parts[1] && (m.kind == "insert" || m.kind == "delete") {
+						behindADrop++
+					}
+				}
+			}
+		}
+		if busy, ok := w.quiesce(30 * time.Second); !ok {
+			t.Fatalf("VERIF-TROUBLE quiescence not reached: %s", busy)
+		}
+		res := checkC01C02(t, w, "C01")
+		_, events := w.snapshot()
+		drops := 0
+		for _, ev := range events {
+			if ev.EventType == api.ReplicateDropPartition {
+				drops++
+			}
+		}
+		sc.Class("drop-partition-in-the-stream")
+		sc.ClassIf(behindADrop > 0, "partition-messages-read-after-another-shard-passed-the-drop")
+		sc.ClassIf(drops == 1, "drop-requested")
+		sc.Count("messages_compared", res.msgsChecked)
+		sc.NonTrivial(behindADrop > 0)
+		sc.Fingerprint(map[string]any{"catalog": w.describe(), "actions": w.hist})
+		sc.Sample(map[string]any{"catalog": w.describe(), "actions": w.hist, "partition_messages_behind_a_drop": behindADrop})
 		sc.Done()
 	})
 }
